@@ -391,10 +391,14 @@ func checkLog(r *ev.Run, v *verifier, j fullJob, byteBudget int, allEdits bool) 
 	h := sha256.Sum256(k)
 	flip := append([]byte{}, k...)
 	flip[rng.Intn(len(flip))] ^= 1 << uint(rng.Intn(8))
+	other := gen.Bytes(rng, len(k))
+	if string(other) == string(k) { // possible with the 1-byte keys
+		other[0] ^= 0x80
+	}
 	for _, wk := range []struct {
 		name string
 		key  []byte
-	}{{"random", gen.Bytes(rng, len(k))}, {"one-bit", flip}, {"shorter", k[:len(k)-1]}, {"zero-extended", append(append([]byte{}, k...), 0)}, {"sha256-of-key", h[:]}, {"empty", []byte{}}} {
+	}{{"random", other}, {"one-bit", flip}, {"shorter", k[:len(k)-1]}, {"zero-extended", append(append([]byte{}, k...), 0)}, {"sha256-of-key", h[:]}, {"empty", []byte{}}} {
 		res := v.run(format, wk.key, L.data, 1+rng.Intn(2))
 		r.Case()
 		switch {
